@@ -602,6 +602,20 @@ class Prov:
                 return subst_args(rt, {i + 1: a for i, a in enumerate(args)})
             except RecursionError:
                 pass
+        if (strip and prog is not None and getattr(self, "_inl", 0) < 3 and name in prog.fns and re.search(r"\{closure#\d+\}$", name)
+                and len(args) == 2 and args[1][0] == "agg" and args[1][1] == "tuple" and _is_pure_helper(prog.fns[name])):
+            # a local closure called directly (`let f = |x| ..; f(a)`): its value is its body's on the actual arguments
+            cf = prog.fns[name]
+            sub = Prov(cf.body, self.depth)
+            sub._inl = getattr(self, "_inl", 0) + 1
+            try:
+                rt = sub.local(0, strip)
+                amap = {1: args[0]}
+                for i, a in enumerate(args[1][3]):
+                    amap[i + 2] = a
+                return subst_args(rt, amap)
+            except RecursionError:
+                pass
         if strip and args:
             if re.search(r"Iterator>::enumerate$|^std::iter::Iterator::enumerate$", name):
                 return ("enum", args[0])
